@@ -153,3 +153,168 @@ Definition greedy_blob : bytes := repeat x00 84 ++ [xfe; x81; x1a; x06; x00].
 Theorem alloc_proportional_refuted :
   lenN greedy_blob = 89 /\ decode_merkle_block greedy_blob = None /\ alloc_merkle_block greedy_blob = 16000040.
 Proof. split; [reflexivity|]. split; vm_compute; reflexivity. Qed.
+
+(* ---------- ExtractMatches never indexes out of range ---------- *)
+Lemma skipn_nth {X} : forall (l : list X) i, (i < length l)%nat ->
+  exists x, nth_error l i = Some x /\ skipn i l = x :: skipn (S i) l.
+Proof.
+  induction l as [|a l IH]; intros i Hi; [cbn in Hi; lia|].
+  destruct i as [|i]; [exists a; split; reflexivity|].
+  cbn [length] in Hi. destruct (IH i ltac:(lia)) as [x [E1 E2]]. exists x. split; [exact E1|exact E2].
+Qed.
+
+Section Refine.
+Variable A : Type.
+Variable H : A -> A -> A.
+Variable eqA : A -> A -> bool.
+Notation traverse := (traverse A H eqA).
+Notation traverse_ix := (traverse_gen A H eqA Nat.leb).
+
+(* the index-cursor walk computes what the suffix walk computes; it has no IxPanic outcome:
+   the two guards ( >= len ) are exactly what makes the index expressions defined *)
+Lemma traverse_ix_refines n (vbits : list bool) (hashes : list A) : forall h pos bu hu m bad,
+  (bu <= length vbits)%nat -> (hu <= length hashes)%nat ->
+  match traverse n h pos (mk_st (skipn bu vbits) (skipn hu hashes) m bad) with
+  | None => traverse_ix n vbits hashes h pos (mk_ist bu hu m bad) = IxErr
+  | Some (x, s') =>
+      exists bu' hu', (bu' <= length vbits)%nat /\ (hu' <= length hashes)%nat /\
+        s_bits s' = skipn bu' vbits /\ s_hashes s' = skipn hu' hashes /\
+        traverse_ix n vbits hashes h pos (mk_ist bu hu m bad) = IxOk (x, mk_ist bu' hu' (s_match s') (s_bad s'))
+  end.
+Proof.
+  assert (Leaf : forall bu hu m bad (mh : bool), (S bu <= length vbits)%nat -> (hu <= length hashes)%nat ->
+    match (match skipn hu hashes with
+           | [] => None
+           | x :: hs' => Some (x, mk_st (skipn (S bu) vbits) hs' (if mh then m ++ [x] else m) bad)
+           end) with
+    | None => (if (length hashes <=? hu)%nat then IxErr
+               else match nth_error hashes hu with
+                    | None => IxPanic
+                    | Some x => IxOk (x, mk_ist (S bu) (S hu) (if mh then m ++ [x] else m) bad)
+                    end) = @IxErr (A * ist A)
+    | Some (x, s') =>
+        exists bu' hu', (bu' <= length vbits)%nat /\ (hu' <= length hashes)%nat /\
+          s_bits s' = skipn bu' vbits /\ s_hashes s' = skipn hu' hashes /\
+          (if (length hashes <=? hu)%nat then IxErr
+           else match nth_error hashes hu with
+                | None => IxPanic
+                | Some x => IxOk (x, mk_ist (S bu) (S hu) (if mh then m ++ [x] else m) bad)
+                end) = IxOk (x, mk_ist bu' hu' (s_match s') (s_bad s'))
+    end).
+  { intros bu hu m bad mh Hb Hh. destruct (Nat.leb_spec (length hashes) hu) as [Hge|Hlt].
+    - rewrite skipn_all2 by exact Hge. reflexivity.
+    - destruct (skipn_nth hashes hu Hlt) as [x [E1 E2]]. rewrite E2, E1.
+      exists (S bu), (S hu). cbn [s_bits s_hashes s_match s_bad]. repeat split; try reflexivity; lia. }
+  induction h as [|h IH]; intros pos bu hu m bad Hb Hh.
+  - cbn [traverse traverse_gen s_bits s_hashes s_match s_bad i_bits_used i_hash_used i_match i_bad].
+    destruct (Nat.leb_spec (length vbits) bu) as [Hge|Hlt].
+    + rewrite skipn_all2 by exact Hge. reflexivity.
+    + destruct (skipn_nth vbits bu Hlt) as [b [E1 E2]]. rewrite E2, E1. apply (Leaf bu hu m bad b); lia.
+  - cbn [traverse traverse_gen s_bits s_hashes s_match s_bad i_bits_used i_hash_used i_match i_bad].
+    destruct (Nat.leb_spec (length vbits) bu) as [Hge|Hlt].
+    + rewrite skipn_all2 by exact Hge. reflexivity.
+    + destruct (skipn_nth vbits bu Hlt) as [b [E1 E2]]. rewrite E2, E1.
+      destruct b; cbn [negb]; [|apply (Leaf bu hu m bad false); lia].
+      pose proof (IH (pos * 2) (S bu) hu m bad ltac:(lia) Hh) as L.
+      destruct (traverse n h (pos * 2) (mk_st (skipn (S bu) vbits) (skipn hu hashes) m bad)) as [[l s1]|].
+      2:{ rewrite L. reflexivity. }
+      destruct L as [bu1 [hu1 [Hb1 [Hh1 [B1 [H1 T1]]]]]]. rewrite T1.
+      destruct s1 as [sb1 sh1 sm1 sbad1]. cbn [s_bits s_hashes s_match s_bad] in *. subst sb1 sh1.
+      destruct (pos * 2 + 1 <? width n (N.of_nat h)).
+      * pose proof (IH (pos * 2 + 1) bu1 hu1 sm1 sbad1 Hb1 Hh1) as R.
+        destruct (traverse n h (pos * 2 + 1) (mk_st (skipn bu1 vbits) (skipn hu1 hashes) sm1 sbad1)) as [[r s2]|].
+        2:{ rewrite R. reflexivity. }
+        destruct R as [bu2 [hu2 [Hb2 [Hh2 [B2 [H2 T2]]]]]]. rewrite T2.
+        exists bu2, hu2. cbn [s_bits s_hashes s_match s_bad i_bits_used i_hash_used i_match i_bad].
+        repeat split; assumption.
+      * exists bu1, hu1. cbn [s_bits s_hashes s_match s_bad]. repeat split; assumption.
+Qed.
+
+Theorem extract_ix_refines n hashes vbits :
+  extract_ix A H eqA n hashes vbits =
+  match extract A H eqA n hashes vbits with Some r => IxOk r | None => IxErr end.
+Proof.
+  unfold extract_ix, extract_gen, extract.
+  destruct (n =? 0); [reflexivity|]. destruct (max_txs <? n); [reflexivity|].
+  destruct (n <? lenL hashes); [reflexivity|]. destruct (lenL vbits <? lenL hashes); [reflexivity|].
+  destruct (height_loop 34 n 0) as [h|]; [|reflexivity].
+  pose proof (traverse_ix_refines n vbits hashes (N.to_nat h) 0 0%nat 0%nat [] false ltac:(lia) ltac:(lia)) as R.
+  cbn [skipn] in R.
+  destruct (traverse n (N.to_nat h) 0 (mk_st vbits hashes [] false)) as [[root s']|]; [|rewrite R; reflexivity].
+  destruct R as [bu [hu [Hb [Hh [B [Hs T]]]]]]. rewrite T.
+  cbn [i_bits_used i_hash_used i_match i_bad].
+  destruct (s_bad s'); [reflexivity|].
+  rewrite B, Hs. unfold lenL. rewrite !skipn_length.
+  replace (N.of_nat (length vbits) - N.of_nat (length vbits - bu)) with (N.of_nat bu) by lia.
+  destruct (negb ((N.of_nat bu + 7) / 8 =? (N.of_nat (length vbits) + 7) / 8)); [reflexivity|].
+  destruct (Nat.eqb_spec hu (length hashes)) as [E|E];
+    destruct (Nat.eqb_spec (length hashes - hu) 0) as [E'|E']; try reflexivity; lia.
+Qed.
+
+Theorem extract_ix_no_panic n hashes vbits : extract_ix A H eqA n hashes vbits <> IxPanic.
+Proof. rewrite extract_ix_refines. destruct (extract A H eqA n hashes vbits); discriminate. Qed.
+
+End Refine.
+
+(* NewMerkleBlockFromBuffer + ExtractMatches on arbitrary bytes: a value or an error *)
+Theorem decode_extract_no_panic bs : decode_extract_ix bs <> IxPanic.
+Proof.
+  unfold decode_extract_ix. destruct (decode_merkle_block bs); [|discriminate].
+  unfold extract_mb_ix. apply extract_ix_no_panic.
+Qed.
+
+Theorem decode_extract_is_run_proof bs :
+  decode_extract_ix bs =
+  match run_proof bs with PParseErr => IxErr | PExtractErr _ => IxErr | POk _ root ms => IxOk (root, ms) end.
+Proof.
+  unfold decode_extract_ix, decode_merkle_block, run_proof.
+  destruct (parse_merkle_block bs) as [[m r]|]; [|reflexivity].
+  unfold extract_mb_ix, extract_mb. rewrite extract_ix_refines.
+  destruct (extract bytes node_hash bytes_eqb (mb_count m) (mb_hashes m) (bits_of_bytes (mb_flags m))) as [[root ms]|]; reflexivity.
+Qed.
+
+(* the guard is load-bearing: with the test of the seeded change C12-a (hashUsed > len instead of
+   hashUsed >= len) the same walk indexes out of range, e.g. on a one-transaction proof without a hash *)
+Theorem weaker_guard_panics :
+  extract_gen bytes node_hash bytes_eqb Nat.ltb 1 [] (bits_of_bytes [x00]) = IxPanic.
+Proof. vm_compute. reflexivity. Qed.
+
+(* the counts are compared with their caps before anything is reserved or read *)
+Theorem merkle_hash_count_checked hd cnt nh r :
+  length hd = 80%nat -> cnt < two32 -> nh < two64 -> wire_max_hashes < nh ->
+  parse_merkle_block (hd ++ le_enc 4 cnt ++ varint nh ++ r) = None /\
+  alloc_merkle_block (hd ++ le_enc 4 cnt ++ varint nh ++ r) = 0.
+Proof.
+  intros Hh Hc Hn Hm.
+  assert (P : parse_merkle_block (hd ++ le_enc 4 cnt ++ varint nh ++ r) = None).
+  { unfold parse_merkle_block, bind. rewrite (take_app_n 80) by exact Hh. rewrite p_le_app by exact Hc.
+    rewrite p_varint_app by exact Hn. destruct (N.ltb_spec wire_max_hashes nh); [reflexivity|lia]. }
+  split; [exact P|]. unfold alloc_merkle_block, decode_merkle_block. rewrite P.
+  unfold alloc_btcd, bind. rewrite (take_app_n 80) by exact Hh. rewrite p_le_app by exact Hc.
+  rewrite p_varint_app by exact Hn. unfold ret. destruct (N.ltb_spec wire_max_hashes nh); [reflexivity|lia].
+Qed.
+
+Theorem merkle_flag_count_checked m nf r :
+  wf_mb m -> nf < two64 -> wire_max_flags < nf ->
+  let bs := mb_header m ++ le_enc 4 (mb_count m) ++ varint (lenL (mb_hashes m)) ++ concat (mb_hashes m) ++ varint nf ++ r in
+  parse_merkle_block bs = None /\ alloc_merkle_block bs = 40 * lenL (mb_hashes m).
+Proof.
+  intros [W1 [W2 [W3 [W4 W5]]]] Hn Hm bs. subst bs. destruct m as [hd cnt hs fl].
+  cbn [mb_header mb_count mb_hashes mb_flags] in *.
+  assert (L : p_list (take 32) (lenL hs) (concat hs ++ varint nf ++ r) = Some (hs, varint nf ++ r)).
+  { replace (concat hs) with (enc_list (fun x : bytes => x) hs) by (unfold enc_list; rewrite map_id; reflexivity).
+    apply p_list_app.
+    - intros a Ha q. rewrite Forall_forall in W3. apply (take_app_n 32). apply W3. exact Ha.
+    - intros a Ha E. rewrite Forall_forall in W3. apply W3 in Ha. subst a. discriminate. }
+  unfold wire_max_hashes in *.
+  assert (P : parse_merkle_block (hd ++ le_enc 4 cnt ++ varint (lenL hs) ++ concat hs ++ varint nf ++ r) = None).
+  { unfold parse_merkle_block, bind. rewrite (take_app_n 80) by exact W1. rewrite p_le_app by exact W2.
+    rewrite p_varint_app by (unfold two64; lia). unfold wire_max_hashes.
+    destruct (N.ltb_spec 400001 (lenL hs)); [lia|]. rewrite L. rewrite p_varint_app by exact Hn.
+    destruct (N.ltb_spec wire_max_flags nf); [reflexivity|lia]. }
+  split; [exact P|]. unfold alloc_merkle_block, decode_merkle_block. rewrite P.
+  unfold alloc_btcd, bind. rewrite (take_app_n 80) by exact W1. rewrite p_le_app by exact W2.
+  rewrite p_varint_app by (unfold two64; lia). unfold ret, wire_max_hashes.
+  destruct (N.ltb_spec 400001 (lenL hs)); [lia|]. rewrite L. rewrite p_varint_app by exact Hn.
+  destruct (N.ltb_spec wire_max_flags nf); [lia|lia].
+Qed.
